@@ -608,11 +608,65 @@ Proof.
   cbn [mret m_out m_steps m_alloc fst snd]. repeat split; try discriminate; lia.
 Qed.
 
-Lemma parse_client_hello_exts_top : top 7 13 4 3 parse_client_hello_exts.
+(* number of elements returned by a loop whose body consumes >= d bytes *)
+Lemma gloop_count {A} (k : loopkind) (elem : list Z -> PR A) d cs ks ca ka :
+  1 <= d -> wf d cs ks ca ka elem ->
+  forall fuel st bs vs rest s a, bytes_ok bs ->
+    gloop k elem fuel st bs = (Ok (vs, rest), s, a) ->
+    bytes_ok rest /\ 0 <= d * zlen vs <= zlen bs - zlen rest.
 Proof.
-  unfold parse_client_hello_exts.
-  apply (parse_ext_list_with_top h_client_hello 3 9 2 2 7 4); try lia.
-  exact h_client_hello_top.
+  intros Hd Hwf. induction fuel as [|f IH]; intros st bs vs rest s a Hb E; cbn [gloop] in E.
+  - destruct (loop_test k st bs) as [[|]|e]; try discriminate.
+    injection E as <- <- _ _. change (zlen (@nil A)) with 0. split; [assumption|lia].
+  - destruct (loop_test k st bs) as [[|]|e]; try discriminate.
+    + unfold mtick in E. rewrite mbind_ok in E. specialize (Hwf bs Hb).
+      destruct (elem bs) as [[[[v r]|e] s1] a1]; [|rewrite mbind_err in E; discriminate].
+      destruct Hwf as (Hr & Hc & Hdd & _). rewrite mbind_ok in E.
+      destruct (gloop k elem f (loop_upd k st (zlen bs - zlen r)) r) as [[[[vs2 r2]|e] s2] a2] eqn:G;
+        [|rewrite mbind_err in E; discriminate].
+      rewrite mbind_ok in E. cbn [mret fst snd] in E.
+      destruct (IH _ _ _ _ _ _ Hr G) as (Hr2 & Hcnt).
+      assert (vs = v :: vs2 /\ rest = r2) as [-> ->] by (split; congruence).
+      rewrite zlen_cons. split; [assumption|]. pose proof (zlen_nonneg vs2). nia.
+    + injection E as <- <- _ _. change (zlen (@nil A)) with 0. split; [assumption|lia].
+Qed.
+
+Lemma loop_all_count {A} (elem : list Z -> PR A) d cs ks ca ka bs vs :
+  1 <= d -> wf d cs ks ca ka elem -> bytes_ok bs ->
+  m_out (loop_all elem bs) = Ok vs -> 0 <= d * zlen vs <= zlen bs.
+Proof.
+  intros Hd Hwf Hb. unfold loop_all, run_loop.
+  destruct (gloop UntilEmpty elem (S (length bs)) 0 bs) as [[[[ws r]|e] s] a] eqn:G.
+  - rewrite mbind_ok. cbn [mret m_out fst snd]. intros H. injection H as <-.
+    destruct (gloop_count UntilEmpty elem d cs ks ca ka Hd Hwf _ _ _ _ _ _ _ Hb G) as (_ & Hc).
+    pose proof (zlen_nonneg r). lia.
+  - rewrite mbind_err. cbn [m_out fst snd]. discriminate.
+Qed.
+
+(* the duplicate test of ClientHello.parse: one step and one cell per parsed extension *)
+Lemma reject_duplicates_cost {B} (exts : list (Z * B)) :
+  m_out (reject_duplicates exts) <> Err OutOfFuel /\
+  m_steps (reject_duplicates exts) = zlen exts /\ m_alloc (reject_duplicates exts) = zlen exts.
+Proof.
+  unfold reject_duplicates, mtick. rewrite mbind_ok.
+  destruct (has_dup (map fst exts)); cbn [mret merr m_out m_steps m_alloc fst snd];
+    repeat split; try discriminate; lia.
+Qed.
+
+Lemma parse_client_hello_exts_top : top 8 13 5 3 parse_client_hello_exts.
+Proof.
+  intros bs Hb. unfold parse_client_hello_exts. pose proof (zlen_nonneg bs).
+  destruct (parse_ext_list_with_top h_client_hello 3 9 2 2 7 4 ltac:(lia) ltac:(lia) ltac:(lia) ltac:(lia)
+              h_client_hello_top ltac:(lia) ltac:(lia) ltac:(lia) ltac:(lia) bs Hb) as (P1 & P2 & P3).
+  pose proof (loop_all_count (ext_elem h_client_hello) 4 3 (9 + 3) (2 + 1) 2 bs) as C.
+  unfold parse_ext_list_with in *. unfold m_out, m_steps, m_alloc in *.
+  destruct (loop_all (ext_elem h_client_hello) bs) as [[[exts|e] s] a]; cbn [fst snd] in *.
+  - rewrite mbind_ok.
+    specialize (C exts ltac:(lia) (ext_elem_wf h_client_hello 3 9 2 2 ltac:(lia) ltac:(lia) ltac:(lia) ltac:(lia)
+                                     h_client_hello_top) Hb eq_refl).
+    destruct (reject_duplicates_cost exts) as (R1 & R2 & R3). unfold m_out, m_steps, m_alloc in *.
+    rewrite R2, R3. cbn [fst snd]. repeat split; try assumption; lia.
+  - rewrite mbind_err. cbn [fst snd]. repeat split; try lia. congruence.
 Qed.
 
 (* ---- certificate lists ------------------------------------------------------------------ *)
@@ -857,40 +911,42 @@ Qed.
 
 (* ---- CompressedCertificate ---------------------------------------------------------------- *)
 Section DecompressProofs.
-  Variable dec : list Z -> Z -> res (list Z).
+  Variable dec : list Z -> Z -> res (list Z * bool).
   Variable algo_ok : Z -> bool.
   (* THE ASSUMED CONTRACT of the decompressor: it never produces more than the limit *)
-  Hypothesis dec_bounded : forall d lim out, 0 <= lim -> dec d lim = Ok out -> zlen out <= lim.
+  Hypothesis dec_bounded :
+    forall d lim out clean, 0 <= lim -> dec d lim = Ok (out, clean) -> zlen out <= lim.
 
-  (* without any assumption: what is returned has exactly the declared length, every other
-     outcome is BadCertificateError, one step *)
+  (* without any assumption: what is returned has exactly the declared length and the
+     decompressor stopped cleanly; every other outcome is BadCertificateError; one step *)
   Lemma decompress_cert_result data expected :
     m_steps (decompress_cert dec data expected) = 1 /\
     match m_out (decompress_cert dec data expected) with
-    | Ok out => zlen out = expected /\ dec data expected = Ok out
+    | Ok out => zlen out = expected /\ dec data (expected + 1) = Ok (out, true)
     | Err e => e = BadCertificateErr
     end.
   Proof.
-    unfold decompress_cert. destruct (dec data expected) as [out|e]; [|split; reflexivity].
+    unfold decompress_cert. destruct (dec data (expected + 1)) as [[out clean]|e]; [|split; reflexivity].
+    destruct clean; cbn [andb]; [|split; reflexivity].
     destruct (zlen out =? expected) eqn:E; cbn [m_steps m_out fst snd]; split; try reflexivity.
     split; [lia|reflexivity].
   Qed.
 
   (* with the contract: what exists in memory, even transiently and on the rejecting path, is
-     bounded by the declared length *)
+     bounded by the limit handed to the decompressor = declared length + 1 *)
   Lemma decompress_cert_alloc data expected : 0 <= expected ->
-    0 <= m_alloc (decompress_cert dec data expected) <= expected.
+    0 <= m_alloc (decompress_cert dec data expected) <= expected + 1.
   Proof.
-    intros He. unfold decompress_cert. destruct (dec data expected) as [out|e] eqn:D.
-    - pose proof (dec_bounded data expected out He D). pose proof (zlen_nonneg out).
-      destruct (zlen out =? expected); cbn [m_alloc snd]; lia.
+    intros He. unfold decompress_cert. destruct (dec data (expected + 1)) as [[out clean]|e] eqn:D.
+    - pose proof (dec_bounded data (expected + 1) out clean ltac:(lia) D). pose proof (zlen_nonneg out).
+      destruct (clean && (zlen out =? expected)); cbn [m_alloc snd]; lia.
     - cbn [m_alloc snd]. lia.
   Qed.
 
   Lemma parse_compressed_cert_bound bs : bytes_ok bs ->
     m_out (parse_compressed_cert dec algo_ok bs) <> Err OutOfFuel /\
     0 <= m_steps (parse_compressed_cert dec algo_ok bs) <= 6 /\
-    0 <= m_alloc (parse_compressed_cert dec algo_ok bs) <= zlen bs + 16777215 /\
+    0 <= m_alloc (parse_compressed_cert dec algo_ok bs) <= zlen bs + 16777216 /\
     (forall algo expected out,
         m_out (parse_compressed_cert dec algo_ok bs) = Ok (algo, expected, out) ->
         zlen out = expected /\ 0 <= expected <= 16777215).
@@ -937,9 +993,9 @@ End DecompressProofs.
 
 (* the contract is satisfiable ... *)
 Lemma rle_dec_limited_bounded :
-  forall d lim out, 0 <= lim -> rle_dec_limited d lim = Ok out -> zlen out <= lim.
+  forall d lim out clean, 0 <= lim -> rle_dec_limited d lim = Ok (out, clean) -> zlen out <= lim.
 Proof.
-  intros d lim out Hl H. unfold rle_dec_limited in H. injection H as <-.
+  intros d lim out clean Hl H. unfold rle_dec_limited in H. injection H as <- _.
   unfold zlen. rewrite firstn_length. lia.
 Qed.
 
@@ -948,12 +1004,19 @@ Qed.
 Lemma unlimited_decompressor_breaks_bound :
   m_out (decompress_cert rle_dec_unlimited [200; 0] 10) = Err BadCertificateErr /\
   m_alloc (decompress_cert rle_dec_unlimited [200; 0] 10) = 200 /\
-  ~ (forall d lim out, 0 <= lim -> rle_dec_unlimited d lim = Ok out -> zlen out <= lim).
+  ~ (forall d lim out clean, 0 <= lim -> rle_dec_unlimited d lim = Ok (out, clean) -> zlen out <= lim).
 Proof.
   split; [vm_compute; reflexivity|]. split; [vm_compute; reflexivity|].
-  intros H. specialize (H [200; 0] 10 (rle_expand [200; 0]) ltac:(lia) eq_refl).
+  intros H. specialize (H [200; 0] 10 (rle_expand [200; 0]) true ltac:(lia) eq_refl).
   vm_compute in H. apply H. reflexivity.
 Qed.
+
+(* the limited toy decompressor rejects the same bomb having produced only limit = 11 bytes,
+   and accepts an honest stream *)
+Lemma limited_decompressor_example :
+  decompress_cert rle_dec_limited [200; 0] 10 = (Err BadCertificateErr, 1, 11) /\
+  decompress_cert rle_dec_limited [3; 7; 2; 9] 5 = (Ok [7; 7; 7; 9; 9], 1, 5).
+Proof. split; vm_compute; reflexivity. Qed.
 
 (* ---- Defragmenter --------------------------------------------------------------------------- *)
 (* a size handler that only reports complete messages of at least m >= 1 bytes *)
@@ -1140,7 +1203,7 @@ Qed.
 
 Lemma parser_work_linear_all :
   linear_work parse_ext_list 1 4 /\
-  linear_work parse_client_hello_exts 7 13 /\
+  linear_work parse_client_hello_exts 8 13 /\
   linear_work parse_sni 2 5 /\
   linear_work parse_alpn 3 4 /\
   linear_work parse_npn 3 3 /\
@@ -1181,7 +1244,7 @@ Qed.
 
 Lemma alloc_bounded_all :
   linear_alloc parse_ext_list 2 1 /\
-  linear_alloc parse_client_hello_exts 4 3 /\
+  linear_alloc parse_client_hello_exts 5 3 /\
   linear_alloc parse_sni 2 1 /\
   linear_alloc parse_alpn 2 1 /\
   linear_alloc parse_npn 2 1 /\
@@ -1196,10 +1259,10 @@ Lemma alloc_bounded_all :
   linear_alloc parse_ca_list 2 1 /\
   (forall tls12, linear_alloc (parse_cert_request12 tls12) 4 259) /\
   (* CompressedCertificate, UNDER THE ASSUMED CONTRACT of the decompressor *)
-  (forall (dec : list Z -> Z -> res (list Z)) (algo_ok : Z -> bool),
-     (forall d lim out, 0 <= lim -> dec d lim = Ok out -> zlen out <= lim) ->
+  (forall (dec : list Z -> Z -> res (list Z * bool)) (algo_ok : Z -> bool),
+     (forall d lim out clean, 0 <= lim -> dec d lim = Ok (out, clean) -> zlen out <= lim) ->
      (forall data expected, 0 <= expected ->
-        0 <= m_alloc (decompress_cert dec data expected) <= expected /\
+        0 <= m_alloc (decompress_cert dec data expected) <= expected + 1 /\
         match m_out (decompress_cert dec data expected) with
         | Ok out => zlen out = expected
         | Err e => e = BadCertificateErr
@@ -1207,7 +1270,7 @@ Lemma alloc_bounded_all :
      (forall bs, bytes_ok bs ->
         m_out (parse_compressed_cert dec algo_ok bs) <> Err OutOfFuel /\
         0 <= m_steps (parse_compressed_cert dec algo_ok bs) <= 6 /\
-        0 <= m_alloc (parse_compressed_cert dec algo_ok bs) <= zlen bs + 16777215 /\
+        0 <= m_alloc (parse_compressed_cert dec algo_ok bs) <= zlen bs + 16777216 /\
         (forall algo expected out,
            m_out (parse_compressed_cert dec algo_ok bs) = Ok (algo, expected, out) ->
            zlen out = expected /\ 0 <= expected <= 16777215))).
@@ -1279,28 +1342,6 @@ Proof.
   pose proof (zlen_nonneg r3). repeat split; try assumption; lia.
 Qed.
 
-(* number of elements returned by a loop whose body consumes >= d bytes *)
-Lemma gloop_count {A} (k : loopkind) (elem : list Z -> PR A) d cs ks ca ka :
-  1 <= d -> wf d cs ks ca ka elem ->
-  forall fuel st bs vs rest s a, bytes_ok bs ->
-    gloop k elem fuel st bs = (Ok (vs, rest), s, a) ->
-    bytes_ok rest /\ 0 <= d * zlen vs <= zlen bs - zlen rest.
-Proof.
-  intros Hd Hwf. induction fuel as [|f IH]; intros st bs vs rest s a Hb E; cbn [gloop] in E.
-  - destruct (loop_test k st bs) as [[|]|e]; try discriminate.
-    injection E as <- <- _ _. change (zlen (@nil A)) with 0. split; [assumption|lia].
-  - destruct (loop_test k st bs) as [[|]|e]; try discriminate.
-    + unfold mtick in E. rewrite mbind_ok in E. specialize (Hwf bs Hb).
-      destruct (elem bs) as [[[[v r]|e] s1] a1]; [|rewrite mbind_err in E; discriminate].
-      destruct Hwf as (Hr & Hc & Hdd & _). rewrite mbind_ok in E.
-      destruct (gloop k elem f (loop_upd k st (zlen bs - zlen r)) r) as [[[[vs2 r2]|e] s2] a2] eqn:G;
-        [|rewrite mbind_err in E; discriminate].
-      rewrite mbind_ok in E. cbn [mret fst snd] in E.
-      destruct (IH _ _ _ _ _ _ Hr G) as (Hr2 & Hcnt).
-      assert (vs = v :: vs2 /\ rest = r2) as [-> ->] by (split; congruence).
-      rewrite zlen_cons. split; [assumption|]. pose proof (zlen_nonneg vs2). nia.
-    + injection E as <- <- _ _. change (zlen (@nil A)) with 0. split; [assumption|lia].
-Qed.
 
 Lemma asn1_child_count_top : top 3 5 2 1 asn1_child_count.
 Proof.
@@ -1410,10 +1451,11 @@ Proof. split; [exact defrag_bound_all|exact defrag_static_bound_all]. Qed.
 Lemma bytes_ok_example : bytes_ok [0;0;0;5;0;3;0;0;0; 0;16;0;5;0;3;2;104;50; 171;171;0;2;7;7].
 Proof. unfold bytes_ok. repeat constructor; lia. Qed.
 
-(* SNI with one zero-length name, ALPN "h2", an unknown extension: parsed in 24 steps, 39 cells *)
+(* SNI with one zero-length name, ALPN "h2", an unknown extension: 27 steps, 42 cells
+   (24/39 for the loop + 3/3 for the duplicate test); a second SNI is rejected *)
 Lemma client_hello_exts_example :
   parse_client_hello_exts [0;0;0;5;0;3;0;0;0; 0;16;0;5;0;3;2;104;50; 171;171;0;2;7;7]
-  = (Ok [(0, [(0, [])]); (16, [(0, [104; 50])]); (43947, [(-3, [7; 7])])], 24, 39).
+  = (Ok [(0, [(0, [])]); (16, [(0, [104; 50])]); (43947, [(-3, [7; 7])])], 27, 42).
 Proof. vm_compute. reflexivity. Qed.
 
 (* two zero-length server names still advance (3 bytes each); one byte short fails, in 8 steps *)
@@ -1424,3 +1466,9 @@ Proof. split; vm_compute; reflexivity. Qed.
 
 Lemma cert_oracle_example : forall c : list Z, (fun _ : list Z => @None exn) c <> Some OutOfFuel.
 Proof. intros c. discriminate. Qed.
+
+(* two (empty) server_name extensions around an unknown one: the whole block is parsed, then the
+   duplicate test of ClientHello.parse rejects it (13/15 for the loop + 3/3 for the test) *)
+Lemma client_hello_duplicate_example :
+  parse_client_hello_exts [0;0;0;0; 171;171;0;0; 0;0;0;0] = (Err DecodeError, 16, 18).
+Proof. vm_compute. reflexivity. Qed.
